@@ -1243,14 +1243,21 @@ def weighted_sum_check(ck, hbin, sp, triples, ts, state):
     if len(us) < 2 and all(abs(w - 1.0) < 1e-300 for _u, w, _n in us):
         return
     sums = [dict((pq, 0.0) for pq in PAIRS) for _ in triples]
+    script = ["spacedist"]
     i = 0
     for usp, w, n in us:
         subs = [tuple(s[i:i + n] for s in tr) for tr in triples]
         i += n
-        o, rc, err = ck.run_bin(hbin, ["spacedist"] + space_lines(usp, subs))
-        if not o or o[0] != "ok":
+        script += space_lines(usp, subs)
+    o, rc, err = ck.run_bin(hbin, script)          # one process for all units of this space
+    per = 3 + OPS_PER_TRIPLE * len(triples)
+    if not o or len(o) < per * len(us):
+        return
+    for j, (usp, w, n) in enumerate(us):
+        blk = o[j * per:(j + 1) * per]
+        if blk[0] != "ok":
             return
-        _cl, _ext, uts = parse_block(o[1:])
+        _cl, _ext, uts = parse_block(blk[1:])
         for k, res in enumerate(uts):
             if res is None:
                 return
@@ -1342,7 +1349,7 @@ def run(ck):
         except RuntimeError:
             return 0
     quick = ck.tier == "quick"
-    state = {"bad": 0, "dis": 0, "modes": {}, "samples": [], "wsum_budget": 12 if quick else 80}
+    state = {"bad": 0, "dis": 0, "modes": {}, "samples": [], "wsum_budget": 8 if quick else 80}
     jobs = []
     # corpus first
     for name, sp, tr in corpus():
@@ -1363,9 +1370,9 @@ def run(ck):
             batch = []
     if batch:
         jobs.append((batch, "compound"))
-    hs = history_spaces(ck.rng.fork("hist"), 30 if quick else 250)
+    hs = history_spaces(ck.rng.fork("hist"), 24 if quick else 250)
     for i in range(0, len(hs), 4):
-        jobs.append(([(sp, make_triples(ck.rng.fork("h%d" % (i + j)), sp, 14 if quick else 40, state))
+        jobs.append(([(sp, make_triples(ck.rng.fork("h%d" % (i + j)), sp, 12 if quick else 40, state))
                       for j, sp in enumerate(hs[i:i + 4])], "history"))
     for i, sp in enumerate(car_spaces(ck.rng.fork("cars"))):
         jobs.append(([(sp, make_triples(ck.rng.fork("car%d" % i), sp, nt_car, state))], "dubins-reedsshepp"))
